@@ -3,6 +3,7 @@ import FitModel.IntegritySpec
 import FitModel.FitFormat
 import Driver.Util
 -- @family integ Drv.hInteg
+-- @family integv Drv.hIntegV
 -- @family integcx Drv.hIntegCx
 -- @family fitformat Drv.hFitFormat
 namespace Drv
@@ -73,6 +74,22 @@ def hInteg : Handler := fun r =>
         | .ok m => if ok ∧ n = m then "ok" else s!"fail:reference=ok:{m}"
         | .bad m => if !ok ∧ n = m then "ok" else s!"fail:reference=bad:{m}"
 
+def showVerdict : Fit.IntegritySpec.Verdict → String
+  | .ok n => s!"ok:{n}"
+  | .bad n => s!"bad:{n}"
+
+/-- `integv b:<hex>`: verdict and count of valid leading sequences of `CheckIntegrity` only.
+model = the model of the code; spec = THE REFERENCE (`IntegritySpec.reference`), which the property demands -/
+def hIntegV : Handler := fun r =>
+  match parseIntegArgs r.args with
+  | none => if r.mode == .model then "bad-op" else if r.mode == .kf then "-" else "n/a"
+  | some a =>
+    match r.mode with
+    | .model => showVerdict (match checkIntegrity a.bytes with | .ok n => .ok n | .err _ n => .bad n)
+    | .spec => showVerdict (Fit.IntegritySpec.reference a.bytes)
+    | .kf => kfInteg a.bytes
+    | .prop => "n/a"
+
 /-! ### exhaustive corruption sweeps (digest ops) -/
 
 def fnvInit : UInt64 := 0xcbf29ce484222325
@@ -138,12 +155,8 @@ def sweep (a : IntegArgs) (kind : String) : Option Sweep := do
     return s
   | _ => none
 
-/-- "encoder output" as a predicate on bytes: one well-formed sequence (independent framing reader) with a
-14-byte header carrying its computed CRC, and a correct file CRC -/
-def isEncoderOutput14 (bs : List Nat) : Bool :=
-  match Fit.FitFormat.parseStream bs with
-  | some [s] => s.header.size = 14 && Fit.FitFormat.headerCrcStrict bs s && Fit.FitFormat.fileCrcOk bs s
-  | _ => false
+/-- "encoder output" as a predicate on bytes: the hypothesis of C04_burst / C04_truncation, evaluated -/
+def isEncoderOutput14 (bs : List Nat) : Bool := decide (Fit.IntegritySpec.IsEncoderOutput14 bs)
 
 /-- `integcx <flip|burst|trunc> [lo=<byte>] [hi=<byte>] [len=<k> pat=<w>] [chk=..] b:<hex>` -/
 def hIntegCx : Handler := fun r =>
